@@ -245,6 +245,7 @@ class Controller:
         self.hold = hold            # predicate(gate): never released before quiescence w/o alt
         self._pct_changes = None
         self.cancelled_steps = {}
+        self.cancel_info = {}
         self.max_pending = 0
         self.post_end_released = 0
 
@@ -279,6 +280,9 @@ class Controller:
             if at == step and idx < len(self.mains) and not self.mains[idx].done():
                 self.mains[idx].cancel()
                 self.cancelled_steps[idx] = step
+                self.cancel_info[idx] = (len(loop.gates), sum(
+                    1 for t in asyncio.all_tasks(loop) if not t.done()) - sum(
+                    1 for t in self.mains if not t.done()))
         if loop._stopping:
             return
         if step > self.max_steps:
